@@ -137,4 +137,6 @@ def nonempty_arg(cond):
             return ln(other)
     if tag(c) == 'not' and tag(c[1]) == 'attr' and c[1][2] == 'empty':
         return c[1][1]
+    if tag(c) == 'call' and c[1] == ('g', 'numpy.any') and len(c[2]) == 1 and not c[3]:
+        return ('mask', ('unk', 'the rows the mask is about'), c[2][0])      # mask.any(): the selection by mask is not empty
     return None
